@@ -60,7 +60,8 @@ def is_tol(spec):
     if spec['atom'] == 'chain':
         return spec['base'] in ('square', 'sumsqr') and any(isinstance(c, float) and abs(c) != 1.0 for c in spec['chain'])
     return spec['atom'] in TOL_ATOMS or (spec['form'] in ('le_scaled', 'obj_scaled') and spec['atom'] in ('square', 'sumsqr')) \
-        or (spec.get('base') == 'square' and spec['form'] == 'bcast_scaled')
+        or (spec.get('base') == 'square' and spec['form'] == 'bcast_scaled') \
+        or (spec['atom'] == 'sobj' and spec.get('base') == 'square')
 
 
 def run_case(case, ses):
